@@ -6,13 +6,18 @@
        bump(kind), nth(n<=3)), and consumes every token;
      - the work bound: recursion depth and the number of loop iterations are bounded by
        3*tokens+6 call-backs deep and tokens+1 iterations per loop (the fuel that suffices).
-   NOT yet proved (theorem B, partial): the marker discipline (complete/abandon/precede/
-   extend_to on live markers, no DropBomb, process()'s unreachable!s) and the totality of the
-   trivia builder / tree builder / validation on the parser's output.  These are covered by
-   the bounded-exhaustive correspondence and the no-panic oracle on the implementation only. *)
+     - theorem B, part 1 (marker discipline): for every token sequence the grammar completes,
+       abandons, precedes and extends only markers that are live / completed (none of the
+       marker unreachable!()/assert sites can fire, extend_to never underflows), every marker
+       a grammar function starts is completed or abandoned (no DropBomb), and so the grammar
+       phase returns normally with all tokens consumed and no live marker.
+   NOT yet proved (theorem B, parts 2 and 3): that event::process never reaches its
+   unreachable!() on the grammar's events, and the totality of the trivia builder / tree
+   builder / validation on the parser's output.  These are covered by the bounded-exhaustive
+   correspondence and the no-panic oracle on the implementation only. *)
 From Coq Require Import NArith Arith List Bool.
 From OQ3 Require Import gen.Kinds Model.Lexer Model.Lexed Model.Parser Model.Grammar
-                        Proofs.LexerP Proofs.WP Proofs.GrammarA Proofs.PipelineP.
+                        Proofs.LexerP Proofs.WP Proofs.GrammarA Proofs.MarkerB Proofs.GrammarB5 Proofs.PipelineP.
 Import ListNotations.
 
 Theorem C01_lexer_total : forall l, tokenize_fuel (S (length l)) l = Some (tokenize l).
@@ -38,6 +43,33 @@ Theorem C01_grammar_consumes_all : forall inp,
   end.
 Proof. exact source_file_total. Qed.
 
+(* theorem B part 1 for every token sequence and every recursion fuel: no marker assertion
+   fires and no marker is left live *)
+Theorem C01_marker_discipline_B : forall inp n,
+  match source_file inp (tie inp n) init_state with
+  | Ok _ s => live s = []
+  | Panic w => ~ mark w
+  | OutOfFuel => True
+  end.
+Proof. exact source_file_markers. Qed.
+
+(* A and B together: the grammar phase returns normally *)
+Theorem C01_grammar_phase_total : forall inp,
+  (forall i k j, nth_error inp i = Some (k, j) -> k <> K_EOF) ->
+  exists s, source_file inp (tie inp (fuel_for inp)) init_state = Ok tt s /\
+            pos s = ntoks inp /\ live s = [].
+Proof. exact grammar_phase_total. Qed.
+
+(* the only panic site of the parser model still reachable in principle is event::process *)
+Theorem C01_parser_total_AB : forall inp,
+  (forall i k j, nth_error inp i = Some (k, j) -> k <> K_EOF) ->
+  match run_parser inp with
+  | Steps _ => True
+  | Panicked w => w = SProcess
+  | Hang => False
+  end.
+Proof. exact run_parser_B. Qed.
+
 (* theorem A for every text *)
 Theorem C01_text_total_A : forall l,
   match run_parser (to_input (lexed_of l)) with
@@ -58,3 +90,6 @@ Print Assumptions C01_lexer_total.
 Print Assumptions C01_parser_total_A.
 Print Assumptions C01_grammar_consumes_all.
 Print Assumptions C01_text_total_A.
+Print Assumptions C01_marker_discipline_B.
+Print Assumptions C01_grammar_phase_total.
+Print Assumptions C01_parser_total_AB.
